@@ -581,7 +581,8 @@ def gen_dilute(world, draw, profile):
     f = draw(st.floats(0.05, 0.95)) if mode == 'lower' else draw(st.floats(1.05, 1.5)) if mode == 'higher' else 1.0
     c = draw(basic.conc_spelling(cur * f, num, den, cfg.wv))
     return {'op': 'dilute', 'obj': ci, 'solute': world.by_name[solute], 'conc': c.text, 'solvent': solvent,
-            'name': world.fresh_name('dil') if draw(st.integers(0, 2)) == 0 else None}
+            'name': world.fresh_name('dil') if (profile.get('dilute_new_name', True) and draw(st.integers(0, 2)) == 0)
+            else None}
 
 
 def gen_create_solution_from(world, draw, profile):
